@@ -10,6 +10,8 @@
    (values in seconds * 10^9). *)
 From Coq Require Import Permutation.
 From CR Require Import Model.Api.
+(* the wiring in main() the model takes for granted (one State, one Metrics, epoch = start, Serve error fatal): Properties/Main.v *)
+From CR Require Properties.Main.
 From CR Require Import Proofs.Metrics.
 From CR Require Import Proofs.Api.
 (* the plugin lock can never hang an RA build / scrape / API request: C17_lock_discipline (extracted),
